@@ -126,6 +126,10 @@ def arith(op: str, a, b):
     if op == "*":
         return za * zb
     if op == "/":
+        if ABSTRACT_DIV and not z3.is_rational_value(z3.simplify(zb)):
+            # contract option `abstract_division`: x / y with a symbolic divisor is the uninterpreted quotient rdiv(x, y) (only
+            # congruence is used); keeps nonlinear real division out of proofs that do not depend on its arithmetic
+            return RDIV(za, zb)
         return za / zb
     if op == "//":
         if z3.is_int(za) and z3.is_int(zb):
@@ -191,6 +195,8 @@ def py_int(v):
 
 
 PYROUND = z3.Function("pyround", z3.RealSort(), z3.IntSort())
+RDIV = z3.Function("real_quotient", z3.RealSort(), z3.RealSort(), z3.RealSort())
+ABSTRACT_DIV = False
 
 
 def py_round(v, fresh=None):
